@@ -216,3 +216,14 @@ pub fn from_lax_raw<O: Clone, A: Clone>(f: &LOh<O, A>) -> PLax<O, A> {
         q: h.quotient.0.iter().zip(h.quotient.1.iter()).map(|(a, b)| (a.0, b.0)).collect(),
     }
 }
+
+/// lengths of the public vectors of a lax diagram: nodes, edge labels, adjacency entries, and the
+/// two halves of the pending-unification list (the raw copy above zips two of these pairs)
+pub fn lax_lens<O, A>(f: &LOh<O, A>) -> [usize; 5] {
+    let h = &f.hypergraph;
+    [h.nodes.len(), h.edges.len(), h.adjacency.len(), h.quotient.0.len(), h.quotient.1.len()]
+}
+
+pub fn plax_lens<O, A>(p: &PLax<O, A>) -> [usize; 5] {
+    [p.w.len(), p.e.len(), p.e.len(), p.q.len(), p.q.len()]
+}
